@@ -125,21 +125,21 @@ def scan_assumptions(text):
 
 
 def make_canary_one(text, f):
-    """Append `false` to the ensures of ONE function under contract (it must then be rejected).
+    """Add `false` to the ensures of ONE function under contract (it must then be rejected).
     One function at a time: a callee with `ensures false` would make its callers vacuously pass."""
     raw = f.get("raw_contract") or ""
     if not raw.strip():
         return None
-    last = [l for l in raw.split("\n") if l.strip()][-1]
-    idx = text.find(last)
+    idx = text.find(raw)
     if idx < 0:
         return None
-    end = idx + len(last)
-    tail = last.rstrip()
-    add = " false," if tail.endswith(",") else ", false,"
-    if "ensures" not in raw:
-        add = ("" if tail.endswith(",") else ",") + "\n    ensures false,"
-    return text[:end] + add + text[end:]
+    if re.search(r"\bensures\b", raw):
+        new = re.sub(r"\bensures\b", "ensures false,", raw, count=1)
+    elif re.search(r"\bdecreases\b", raw):
+        new = re.sub(r"\bdecreases\b", "ensures false,\n    decreases", raw, count=1)
+    else:
+        new = raw.rstrip() + ("" if raw.rstrip().endswith(",") else ",") + "\n    ensures false,"
+    return text[:idx] + new + text[idx + len(raw):]
 
 
 def run_canaries(text, fns, workdir, unit_name, rlimit, timeout):
